@@ -81,6 +81,8 @@ def main():
             fs.run(plot=False, save=bool(save), **cfg.get("run_kwargs", {}))
             result_event(obs, fs, "done")
             for k in range(int(cfg.get("run_again", 0))):
+                if cfg.get("lift_cap_before_again"):
+                    fs.ns.max_iteration = float("inf")      # continue a run that was stopped by max_iteration
                 fs.run(plot=False, save=False)
                 result_event(obs, fs, "done_again")
         elif cfg["kind"] == "scripted":
